@@ -7,6 +7,7 @@ import (
 	"strconv"
 	"strings"
 	"sync"
+	"time"
 )
 
 // Independence slicing + caching for queries that involve floating point.
@@ -237,7 +238,14 @@ func (i *interpreter) sliceCheck(c *Term) (string, map[int]uint64) {
 	}
 	SliceStats.Unlock()
 	s := i.fp()
+	tq := time.Now()
 	res, vals := s.Standalone(text, vars)
+	if d := time.Since(tq); d > 5*time.Second && os.Getenv("VERIF_SLOWQ") != "" {
+		f, _ := os.CreateTemp("", "slowq-*.smt2")
+		fmt.Fprintf(f, "; %s %v\n%s", res, d, text)
+		f.Close()
+		fmt.Printf("SLOW FP QUERY %v %s -> %s (%d bytes)\n", d, res, f.Name(), len(text))
+	}
 	if res == "sat" || res == "unsat" {
 		sliceCache.Store(text, sliceResult{res, vals})
 	}
